@@ -13,7 +13,12 @@ def run(chk):
         "time passes only in the operation and the sleeper; monotonic clock non-decreasing; 1/64 s grid",
         "decision callbacks (classifier, strategy, sleep handler, sleeper) do not raise ordinary exceptions; attempt_timeout_s=None",
     ]
-    rc.run_runner_check(chk, "C01", "proj_C01", OPTS)
+    ok = chk.check_theorems()
+    rc.run_runner_check(chk, "C01", "proj_C01", OPTS, theorems_ok=ok)
+    if ok:
+        import source_tie
+        source_tie.report(chk, source_tie.failure_tie(chk), "failure",
+                          "scripted call sequences (random, cap-mix, abort sentinels and sweeps): no property violation found")
 
 
 def replay(path):
